@@ -5,8 +5,11 @@ the payload of a plain table is faithful; the hypotheses of the induction split 
 leaves and processed markers.
 -/
 import DafRel.Lemmas.SqlCompileSound
+import DafRel.Lemmas.SqlHistory
 
 namespace DafRel
+
+variable {I : NodeInv}
 
 theorem lookup_tableAvail (name : String) (cols : Cols) (t : Tag) :
     SqlPayload.lookup (cols.map (fun t => (t, SqlExpr.col name t))) t =
@@ -152,7 +155,7 @@ trees, everything the factories build), if the entry point answers with rows, an
 the decidable check and holds faithful payloads, the rows the database returns are - values, multiplicity
 and order - those of the direct evaluation. -/
 theorem sqlRun_sound_good (σ : Leaves) (s : SqlState) (st : Store) (r : Rel) (out : EvalOut) (b : Bool)
-    (hg : Good σ r)
+    (hg : Good I σ r)
     (hready : ∀ c, conform st defaultFuel r = .ok c →
       (c.get r).structReady s = true ∧ (c.get r).Faithful s s.tables σ)
     (hrun : sqlRun s st r = .inr (out, b)) : out.rows = sem σ r := by
@@ -186,5 +189,70 @@ theorem sqlRun_sound (σ : Leaves) (s : SqlState) (st : Store) (r : Rel) (out : 
       (c.get r).structReady s = true ∧ (c.get r).Faithful s s.tables σ)
     (hrun : sqlRun s st r = .inr (out, b)) : out.rows = sem σ r :=
   sqlRun_sound_good σ s st r out b (raw_good σ r hwf htr hraw) hready hrun
+
+/-! ### Faithfulness of the payloads is a property of the INPUT tree
+
+The tree-building induction carries a predicate on atoms and Selects (`NodeInv`); instantiated with
+"holds a faithful payload, if any", it shows that the conformed tree is faithful whenever the input is: the
+engine never invents a leaf, and the Selects it creates are fresh objects without payload. -/
+
+/-- "The payload this node holds (if any) stands for its rows." -/
+def payInv (s : SqlState) (tables : List (List Row)) (σ : Leaves) (h0 : s.payload 0 = none) : NodeInv where
+  atom := fun x => x.isAtom = true → x.Faithful s tables σ
+  sel := fun S => ∀ own, s.payload S.oid = some own → PaySem tables own (sem σ S) S.columns
+  selNew := fun S hS own hown => by rw [hS, h0] at hown; cases hown
+
+theorem Good.faithful {s : SqlState} {tables : List (List Row)} {σ : Leaves} {h0 : s.payload 0 = none} {t : Rel}
+    (h : Good (payInv s tables σ h0) σ t) : t.Faithful s tables σ := by
+  induction h with
+  | atom r ha _ _ _ hI => exact hI ha
+  | unary op t c _ _ ih => exact ih
+  | chain l r c _ _ _ ihl ihr => exact ⟨ihl, ihr⟩
+  | join j l r c _ _ _ _ _ ihl ihr => exact ⟨ihl, ihr⟩
+  | sel S hS _ _ hI _ ih =>
+    have hs := hS.isSel
+    cases S <;> simp [Rel.isSelect] at hs
+    exact ⟨fun own hown => hI own hown, fun _ => ih⟩
+
+theorem atomsOK_of_faithful (s : SqlState) (tables : List (List Row)) (σ : Leaves) (h0 : s.payload 0 = none) :
+    (t : Rel) → t.RawSql → t.Faithful s tables σ → t.AtomsOK (payInv s tables σ h0)
+  | .leaf .., _, hf => fun _ => hf
+  | .mat .., _, hf => fun _ => hf
+  | .transfer .., _, hf => fun _ => hf
+  | .unary _ t _, hr, hf => atomsOK_of_faithful s tables σ h0 t hr hf
+  | .binary _ l r _, hr, hf =>
+    ⟨atomsOK_of_faithful s tables σ h0 l hr.1 hf.1, atomsOK_of_faithful s tables σ h0 r hr.2.1 hf.2⟩
+  | .select .., hr, _ => by cases hr
+
+/-- **Conform, compile, evaluate returns the reference rows** - with the semantic hypothesis (payloads stand for
+the rows of their relations) stated on the INPUT tree; what is asked of the conformed tree is only the
+decidable check `Rel.structReady`. -/
+theorem sqlRun_sound_input (σ : Leaves) (s : SqlState) (st : Store) (r : Rel) (out : EvalOut) (b : Bool)
+    (hwf : r.WF) (htr : r.Truthful σ) (hraw : r.RawSql)
+    (hF : r.Faithful s s.tables σ) (h0 : s.payload 0 = none)
+    (hready : ∀ c, conform st defaultFuel r = .ok c → (c.get r).structReady s = true)
+    (hrun : sqlRun s st r = .inr (out, b)) : out.rows = sem σ r := by
+  have gI : Good (payInv s s.tables σ h0) σ r :=
+    raw_goodI σ r hwf htr hraw (atomsOK_of_faithful s s.tables σ h0 r hraw hF)
+  refine sqlRun_sound_good σ s st r out b gI (fun c hc => ⟨hready c hc, ?_⟩) hrun
+  exact ((treeBuild_sound σ st defaultFuel).conform r c gI hc).1.faithful
+
+theorem payInv_new (s : SqlState) (tables : List (List Row)) (σ : Leaves) (h0 : s.payload 0 = none) :
+    ∀ x : Rel, x.isAtom = true → x.oid = 0 → (payInv s tables σ h0).atom x := by
+  intro x ha hx _
+  cases x <;> simp [Rel.isAtom] at ha <;>
+    (simp only [Rel.oid] at hx; subst hx; intro p hp; rw [h0] at hp; cases hp)
+
+/-- **Every construction history inside one SQL engine executes to the direct evaluation of its operation
+sequence**, given that the tables attached to its LEAVES hold the leaves' rows. -/
+theorem sql_history_run_sound (σ : Leaves) (s : SqlState) (st : Store) (eng : Engine) (hk : eng.kind = .sql)
+    (bld : SqlBuild) (r : Rel) (out : EvalOut) (b : Bool) (hok : bld.ok σ) (h0 : s.payload 0 = none)
+    (hl : bld.LeavesOK (payInv s s.tables σ h0) eng) (h : bld.tree st eng = .ok r)
+    (hready : ∀ c, conform st defaultFuel r = .ok c → (c.get r).structReady s = true)
+    (hrun : sqlRun s st r = .inr (out, b)) : out.rows = bld.direct σ := by
+  have B := sql_build_invariantI σ st eng hk (payInv_new s s.tables σ h0) bld r hok hl h
+  rw [sqlRun_sound_good σ s st r out b B.good (fun c hc => ⟨hready c hc, ?_⟩) hrun]
+  · exact B.sem_eq
+  · exact ((treeBuild_sound σ st defaultFuel).conform r c B.good hc).1.faithful
 
 end DafRel
